@@ -21,6 +21,7 @@ import (
 	"sort"
 	"strings"
 	"sync/atomic"
+	"time"
 
 	"github.com/ipld/go-ipld-prime/storage"
 	"github.com/ipld/go-ipld-prime/storage/fsstore"
@@ -145,6 +146,9 @@ type world struct {
 	store    *fsstore.Store
 	cfg      string
 	inflight map[int]bool
+
+	cancelAt   int // fs-call count from which the operations' context reports Canceled (-1: never)
+	cancelSeen bool
 }
 
 func (w *world) content(k, ver int) []byte {
@@ -219,7 +223,7 @@ func (S) RunTape(t *sim.Tape, st *sim.Stats, keepLog bool) *sim.Outcome {
 		d.CloseAll()
 		os.RemoveAll(root)
 	}()
-	w := &world{t: t, s: s, d: d, o: o, st: st, inflight: map[int]bool{}}
+	w := &world{t: t, s: s, d: d, o: o, st: st, inflight: map[int]bool{}, cancelAt: -1}
 	// function-entry yields inside the storage packages (build overlay): callers can be
 	// interleaved between the steps of computing a path, not only at file-system calls
 	zzsimhook.Yield = s.Yield
@@ -309,7 +313,7 @@ func (S) RunTape(t *sim.Tape, st *sim.Stats, keepLog bool) *sim.Outcome {
 	}
 
 	// ---- fault plan (enumeration dimensions; forced by the enumerator) ----
-	mode := t.Choice(5, "fault.mode") // 0 none, 1 crash, 2 error, 3 two errors, 4 an error and later a crash
+	mode := t.Choice(6, "fault.mode") // 0 none, 1 crash, 2 error, 3 two errors, 4 an error and later a crash, 5 the callers' context is cancelled once <at> fs calls were made
 	at := t.Choice(160, "fault.at")
 	variant := t.Choice(6, "fault.variant") // crash: 0 = before call, 1..4 = inside write at prefix 0/1/mid/len-1
 	at2 := t.Choice(160, "fault.at2")
@@ -324,6 +328,8 @@ func (S) RunTape(t *sim.Tape, st *sim.Stats, keepLog bool) *sim.Outcome {
 		d.ErrAt = map[int]int{at: variant}
 	case 3:
 		d.ErrAt = map[int]int{at: variant, at2: variant2}
+	case 5:
+		w.cancelAt = at
 	case 4:
 		// the process meets an error, carries on (error handling, clean-up), and dies later
 		d.ErrAt = map[int]int{at2: variant2}
@@ -375,7 +381,7 @@ func (S) RunTape(t *sim.Tape, st *sim.Stats, keepLog bool) *sim.Outcome {
 	}
 	phase1Calls := d.NCalls()
 	trace := append([]simos.Call(nil), d.Trace...)
-	fired := d.Dead || len(d.Faults) > 0
+	fired := d.Dead || len(d.Faults) > 0 || w.cancelSeen
 	if (mode == 1 || mode == 4) && !d.Dead {
 		// the crash point lies beyond the trace: the process dies after its last call
 		d.Dead = true
@@ -403,6 +409,9 @@ func (S) RunTape(t *sim.Tape, st *sim.Stats, keepLog bool) *sim.Outcome {
 		st.Inc("runs.capped")
 	}
 	st.AddMap("fired.", d.Fired)
+	if w.cancelSeen {
+		st.Inc("fired.ctx_cancelled")
+	}
 	st.AddMap("probe.", d.Probes)
 	for _, c := range trace {
 		switch {
@@ -465,7 +474,7 @@ func (w *world) dirState() string {
 }
 
 func (w *world) runOps(ti int, ops []op) {
-	ctx := context.Background()
+	ctx := w.opCtx()
 	for _, p := range ops {
 		w.s.Yield("op")
 		key, content := w.keys[p.key], w.content(p.key, p.ver)
@@ -477,7 +486,7 @@ func (w *world) runOps(ti int, ops []op) {
 			err := w.store.Put(ctx, key, buf)
 			w.s.Log.Add(fmt.Sprintf("RET t%d Put err=%v", ti, err != nil))
 		case 6:
-			cctx, cancel := context.WithCancel(ctx)
+			cctx, cancel := context.WithCancel(context.Background())
 			cancel()
 			err := w.store.Put(cctx, key, append([]byte(nil), content...))
 			if err == nil {
@@ -719,6 +728,11 @@ func (sc S) Unit(u *scen.Unit) {
 			}
 		}
 	}
+	// cancellation points: the context every operation was given is cancelled after i calls
+	for i := 0; i <= n; i++ {
+		u.Exec(map[string]int{"fault.mode": 5, "fault.at": i})
+		u.St.Inc("enum.cancel_points")
+	}
 	// error points: every call, every variant
 	for i := 0; i < n; i++ {
 		c := trace[i]
@@ -748,4 +762,41 @@ func (sc S) Unit(u *scen.Unit) {
 			"fault.variant": int(sim.SeedFor(int64(u.Seed), "v", k) % 6), "fault.variant2": int(sim.SeedFor(int64(u.Seed), "v2", k) % 6)})
 		u.St.Inc("enum.error_pairs")
 	}
+}
+
+// simCtx is the context operations run under in cancellation mode: it reports
+// Canceled from the moment the simulated disk has served cancelAt calls (a
+// parent context cancelled at an arbitrary instant between two system calls).
+type simCtx struct {
+	w    *world
+	done chan struct{}
+}
+
+func (c *simCtx) cancelled() bool {
+	if c.w.d.NCalls() >= c.w.cancelAt {
+		c.w.cancelSeen = true
+		select {
+		case <-c.done:
+		default:
+			close(c.done)
+		}
+		return true
+	}
+	return false
+}
+func (c *simCtx) Deadline() (time.Time, bool)   { return time.Time{}, false }
+func (c *simCtx) Done() <-chan struct{}         { c.cancelled(); return c.done }
+func (c *simCtx) Value(interface{}) interface{} { return nil }
+func (c *simCtx) Err() error {
+	if c.cancelled() {
+		return context.Canceled
+	}
+	return nil
+}
+
+func (w *world) opCtx() context.Context {
+	if w.cancelAt < 0 {
+		return context.Background()
+	}
+	return &simCtx{w: w, done: make(chan struct{})}
 }
